@@ -130,6 +130,41 @@ def _walk_flags(roll):
     return flags
 
 
+def _annotate_flags(r):
+    """after the tree has been rolled: an annotated copy of any of its rollers is a roller of its own — its rolls name
+    IT as their producer and carry ITS annotation (nothing remembered by the original may answer for the copy)"""
+    import random
+
+    import dyce.rng
+
+    flags = []
+    seen, stack, rollers = set(), [r], []
+    while stack:
+        x = stack.pop()
+        if id(x) in seen:
+            continue
+        seen.add(id(x))
+        rollers.append(x)
+        stack.extend(x.sources)
+    saved = dyce.rng.RNG
+    dyce.rng.RNG = random.Random(0)
+    try:
+        for i, x in enumerate(rollers[:6]):
+            x2 = x.annotate("note-%d" % i)
+            roll = x2.roll()
+            if roll.r is not x2:
+                flags.append("roll-of-annotated-copy-names-another-roller")
+            elif roll.annotation != "note-%d" % i:
+                flags.append("roll-of-annotated-copy-has-annotation-%r" % (roll.annotation,))
+            if x.annotation == "note-%d" % i:
+                flags.append("annotate-changed-the-original")
+    except IndexError:
+        pass  # a selection that is not valid on this path of the copy's re-roll
+    finally:
+        dyce.rng.RNG = saved
+    return flags
+
+
 def impl(case):
     r = RC.build(case["tree"])
     agg = Counter()
@@ -138,6 +173,7 @@ def impl(case):
         agg[RC.show_rec(roll)] += w
         flags.update(_structure_flags(r, roll, case["tree"]))
         flags.update(_walk_flags(roll))
+    flags.update(_annotate_flags(r))
     out = RC.fmt_agg(agg)
     if flags:
         out += " FLAGS:" + ",".join(sorted(flags))
